@@ -19,6 +19,7 @@ fn sweep_programs() -> Vec<(Shape, Vec<Step>)> {
             Step::Filter(PFun::Not(Box::new(PFun::ModEq(3, 0)))),
             Step::FlatMap(GFun::UpTo(3)),
             Step::MapBatches(3, BFun::Each(e_modmul(5, 97))),
+            Step::MapBatches(2, BFun::Dup),
         ]),
         (Shape::KV, vec![
             Step::MapValues(EFun::Add(1)),
@@ -43,6 +44,13 @@ fn sweep_programs() -> Vec<(Shape, Vec<Step>)> {
             Step::Unkey,
         ]),
         (Shape::KV, vec![]),
+        // expanding, chunk-sensitive batch function: sequential grid points only
+        (Shape::U, vec![
+            Step::MapBatches(4, BFun::Header),
+            Step::Map(EFun::Add(1)),
+            Step::MapBatches(0, BFun::Dup),
+            Step::MapBatches(3, BFun::Header),
+        ]),
     ]
 }
 
@@ -82,7 +90,13 @@ fn generate(seed: u64, tier: Tier, em: &mut Emitter) {
         for pi in 0..=(n + 3) {
             let mode = if pi == 0 { Mode::Seq } else { Mode::Par(pi - 1) };
             for (j, (shape, steps)) in progs.iter().enumerate() {
-                if tier == Tier::Quick && (n + pi) % progs.len() != j {
+                let seq_only = steps.iter().any(|s| matches!(s, Step::MapBatches(_, BFun::Header)));
+                if seq_only {
+                    // not part of the rotation: every sequential grid point gets it
+                    if mode != Mode::Seq {
+                        continue;
+                    }
+                } else if tier == Tier::Quick && (n + pi) % (progs.len() - 1) != j.min(progs.len() - 2) {
                     continue;
                 }
                 let src = sweep_src(*shape, n, n, &mut rng);
@@ -107,11 +121,12 @@ fn generate(seed: u64, tier: Tier, em: &mut Emitter) {
         let n = if rng.chance(1, 3) { rng.below(4) as usize } else { rng.below(25) as usize };
         let src = gen_src(&mut rng, n, true, true);
         let parts = rng.below(src.len() as u64 + 3) as usize;
+        let mode = if rng.chance(1, 4) { Mode::Seq } else { Mode::Par(parts) };
         let mut o = GenOpts::elementwise();
         o.reorder_class = rng.chance(1, 7);
+        o.header = mode == Mode::Seq;
         let nsteps = rng.below(13) as usize;
         let (steps, _) = gen_program(&mut rng, &src, &o, nsteps, parts);
-        let mode = if rng.chance(1, 4) { Mode::Seq } else { Mode::Par(parts) };
         emit(em, &src, &steps, mode, &["random"]);
     }
 }
